@@ -16,6 +16,10 @@ resolved, arguments bound to the callee's parameters) and decide on the CFG:
       values of the (arbitrary) payload - strip family, first/last-occurrence cuts, replace - decides how much is removed;
 * R12 the decoder keeps sufficient key material sufficient: after a fresh RSA decryption of the metadata the session keys
       are derived and stored whenever *either* default key is missing, in the order (aes_key, hmac_key), from aes_rand.
+* R13 the client sends the request as the transform left it: between `<c2http>.<route>.transform(..)` and the sending
+      call no entry of a container field of the transformed request (headers, params; also through an alias, a copy that
+      is sent instead, or a method the request is handed to) is replaced or removed in favour of a value that does not
+      come from the transform - the transform performs the profile's dynamic placements under free names.
 
 A subject that cannot be located is reported as undecided, a located subject that does not satisfy the condition as
 violated.
@@ -110,6 +114,22 @@ assumption* (`_tv` / `_spec`); the only iteration is the fixpoint of `_resolve` 
       of <metadata> = the decrypt_metadata call).  Lemma: a validated key is None or 16 bytes (R3), so "missing" decides
       `k` false, `k is None` true, `None in (k, ..)` true and "present" the opposite; any other test that mentions the keys
       and lies between the decryption and the leak makes the obligation undecided, never violated.
+* R13 1 (the `<c2http>.<route>.transform(..)` call as in R9; subscript stores / `del` / `|=`, the in-place mapping methods of
+      the finite table `_MAP_WRITES`, and the three mapping-merge expression forms in which a later operand wins -
+      `{**m, k: v}`, `m | other`, `dict(m, k=v)`; field names from the NamedTuple declaration of HttpRequest; callees
+      resolved, arguments bound to parameters); 3 (reaching definitions decide which expressions denote the transformed
+      request or the container of one of its fields: aliases, `dict(m)` / `m.copy()` / `copy.copy(m)` / `{**m}` copies, a
+      `{.. for k, v in m.items()}` re-keyed copy, a package method that returns the parameter the request was bound to; a
+      written value is "foreign" when no sub-expression of it reads the request; the request / a field container passed
+      to a package function is followed into it with the parameter standing for it, two levels deep); 2 (only statements
+      reachable on the CFG from the statement of the transform call are judged; a dominating test `<key> not in
+      <container>` discharges a store, any other dominating test that reads the container makes it undecided).  Lemma
+      (documented mapping semantics): in `{**m, k: v}`, `m | o`, `dict(m, **kw)`, `m.update(o)` and `m |= o` the later /
+      right / keyword entries win; `m.setdefault(k, v)` never replaces an entry.  Verdict: a located replacement / removal
+      with a foreign value is a violation - header and parameter names of a placement are free strings of the profile,
+      so every fixed name is the placement of some well-formed profile; a value re-computed from the request itself or
+      a popped value that is used is undecided.  What an *external* callee (httpx, logging) does with the request is not
+      analysed.
 * R6  obligations of `rules.c04.run`, R7 obligations of `rules.c19.r5`, imported unchanged - their technique is stated
       in (and audited with) those modules.
 """
@@ -480,7 +500,9 @@ def run(ctx):
         "after the first blank line, header name / value = the text before / everything after the first `: ` of the line); "
         "recover's append / prepend steps remove the literal by position (no strip-set / wrong-occurrence / replace cut on the arbitrary "
         "payload); the decoder derives and stores the session keys from freshly decrypted metadata whenever either default key is "
-        "missing (private key plus only one of the two keys is sufficient key material). "
+        "missing (private key plus only one of the two keys is sufficient key material); nothing replaces or removes an entry of the "
+        "headers / params of the transformed request between the transform call and the sending call (the transform performs the profile's "
+        "`header` / `parameter` placements under free names - client defaults belong into the initial request). "
         "Whole-session histories are not decided."
     )
     rep.not_decided = ["whole-session decoding over all interleavings", "metadata_cache / beacon_keys evolution over time", "packet contents",
@@ -488,6 +510,7 @@ def run(ctx):
                        "what the HTTP client library emits for the arguments it is given (header order, encoding of the query) and how the peer captures it",
                        "the splitting of the header block into lines and of the start line into its three parts",
                        "how many bytes recover's append / prepend slices remove (C04.R5, imported as R6, judges the slice bounds; R11 only excludes content-dependent cuts)",
+                       "changes of the scalar fields (uri, body, method) of the transformed request inside the arguments of the sending call (R9 only asks that they are read; R13 judges the header / parameter containers)",
                        "`keys = keys or self.beacon_keys` is evaluated before the derivation: packets in the very message that carries the metadata use the old keys"]
     rep.trusted_base = [
         "CPython ast", "networkx dominators",
@@ -510,6 +533,9 @@ def run(ctx):
         "the literal over all non-empty profile strings",
         "named assumptions of R12 (default aes_key / hmac_key present or missing, at least one missing) decide only `self.beacon_keys.<k>`, `<k> is/== None` and "
         "`None in (<k>, ..)` tests; a validated key is None or 16 bytes (R3), and the constructor accepts an RSA private key with any subset of the two keys",
+        "R13: documented mapping semantics - in {**m, k: v}, m | o, dict(m, **kw), m.update(o), m |= o the later / right / keyword entries win, m.setdefault never "
+        "replaces an entry; header / parameter names of a placement are free profile strings, so any fixed name written after the transform is some profile's placement; "
+        "external callees (httpx, logging) are assumed not to modify the request they are given",
         "R6/R7 are the obligations of rules.c04 / rules.c19.r5 (their trusted base applies)",
     ]
     r1(ctx)
@@ -522,6 +548,7 @@ def run(ctx):
     r10(ctx)
     r11(ctx)
     r12(ctx)
+    r13(ctx)
     # the traffic decoder is only as good as the transform layer it routes to: C04's obligations on
     # HttpDataTransform.transform/recover are necessary conditions of C07 as well
     from rules import c04
@@ -1738,8 +1765,272 @@ def r9(ctx):
         _emit(ctx, "R9", "AGREE", f, text, verdict, detail, node)
 
 
+# ---------------------------------------------------------------------------- R13: the transformed request is sent as the transform left it
+_MAP_COPIES = ("dict", "OrderedDict", "collections.OrderedDict", "copy.copy", "copy.deepcopy", "copy", "deepcopy")
+# in-place methods of a mapping: overwrite / remove what is there, or keep it (setdefault never replaces an entry)
+_MAP_WRITES = {"update": "write", "__setitem__": "write", "__ior__": "write", "pop": "delete", "popitem": "delete", "clear": "delete",
+               "__delitem__": "delete", "setdefault": "keep"}
+
+
+def _heads(s):
+    """The expressions / simple statement a statement evaluates itself (not those of the statements nested in it)."""
+    if isinstance(s, (ast.If, ast.While)):
+        return [s.test]
+    if isinstance(s, (ast.For, ast.AsyncFor)):
+        return [s.iter]
+    if isinstance(s, (ast.With, ast.AsyncWith)):
+        return [it.context_expr for it in s.items]
+    return [] if hasattr(s, "body") or hasattr(s, "cases") else [s]
+
+
+class _ReqView:
+    """Which expressions of function f denote the transformed request, or (an alias / a shallow copy of) the container
+    held in one of its fields.  The request is the value of the transform call `tcall` (followed through reaching
+    definitions and through package helpers that hand their argument back), or - inside a callee the request or one of its
+    field containers was passed to - the parameter it was bound to."""
+
+    def __init__(self, ctx, f, fields, tcall=None, req_params=(), field_params=None):
+        self.ctx, self.f, self.fields, self.tcall = ctx, f, fields, tcall
+        self.stores = _stores(f.node)
+        self.ps = set(params(f.node))
+        self.req_params = {p for p in req_params if not self.stores.get(p)}
+        self.field_params = {p: fl for p, fl in (field_params or {}).items() if not self.stores.get(p)}
+
+    def passes_through(self, call, at, depth):
+        """Is `call` a call of a package function that returns the very parameter the request is bound to?"""
+        cal = _callee(self.ctx, self.f, call)
+        g = cal.func if cal is not None and cal.kind == "func" else None
+        if g is None:
+            return False
+        b = _bind(self.ctx, self.f, call)
+        ps = [p for p, a in b.items() if p != "**" and a is not None and self.is_req(a, at, depth + 1)]
+        rets = [s for s in statements(g.node) if isinstance(s, ast.Return)]
+        gst = _stores(g.node)
+        return bool(ps) and bool(rets) and all(isinstance(r.value, ast.Name) and r.value.id in ps and not gst.get(r.value.id) for r in rets)
+
+    def is_req(self, e, at, depth=0):
+        e = strip_cast(e)
+        if self.tcall is not None and e is self.tcall:
+            return True
+        if isinstance(e, ast.Name):
+            if e.id in self.req_params:
+                return True
+            if e.id not in self.ps and depth < 6:
+                rd = reaching_defs(self.ctx, self.f, e.id, at)
+                return bool(rd) and all(v is not None and isinstance(s, ast.stmt) and not isinstance(s, (ast.For, ast.AsyncFor, ast.With, ast.AsyncWith))
+                                        and self.is_req(v, s, depth + 1) for s, v in rd)
+            return False
+        if isinstance(e, ast.Call) and depth < 6 and e is not self.tcall:
+            return self.passes_through(e, at, depth)
+        return False
+
+    def field_of(self, e, at, depth=0):
+        """Name of the request field whose container expression e denotes (the container itself, an alias, a mapping copy
+        of it, a re-keyed `{.. for k, v in <it>.items()}` copy), else None."""
+        e = strip_cast(e)
+        if depth > 6:
+            return None
+        if isinstance(e, ast.Attribute) and e.attr in self.fields and self.is_req(e.value, at):
+            return e.attr
+        if isinstance(e, ast.Subscript) and isinstance(_c(e.slice), int) and -len(self.fields) <= _c(e.slice) < len(self.fields) and self.is_req(e.value, at):
+            return self.fields[_c(e.slice)]
+        if isinstance(e, ast.Name):
+            if e.id in self.field_params:
+                return self.field_params[e.id]
+            if e.id in self.ps:
+                return None
+            rd = reaching_defs(self.ctx, self.f, e.id, at)
+            got = {self.field_of(v, s, depth + 1) if v is not None and isinstance(s, ast.stmt) and not isinstance(s, (ast.For, ast.AsyncFor, ast.With, ast.AsyncWith)) else None
+                   for s, v in rd}
+            return got.pop() if len(got) == 1 else None
+        if isinstance(e, ast.Call):
+            if dotted(e.func) in _MAP_COPIES and len(e.args) == 1 and not e.keywords:
+                return self.field_of(e.args[0], at, depth + 1)
+            if isinstance(e.func, ast.Attribute) and e.func.attr == "copy" and not e.args and not e.keywords:
+                return self.field_of(e.func.value, at, depth + 1)
+            return None
+        if isinstance(e, ast.Dict) and len(e.keys) == 1 and e.keys[0] is None:
+            return self.field_of(e.values[0], at, depth + 1)
+        if isinstance(e, ast.DictComp) and len(e.generators) == 1:
+            it = e.generators[0].iter
+            if isinstance(it, ast.Call) and isinstance(it.func, ast.Attribute) and it.func.attr == "items" and not it.args:
+                return self.field_of(it.func.value, at, depth + 1)
+        return None
+
+    def derived(self, e, at):
+        """Does expression e read the transformed request (or a container taken from it) anywhere?"""
+        return e is not None and any((isinstance(n, (ast.Name, ast.Attribute, ast.Subscript)) and (self.is_req(n, at) or self.field_of(n, at) is not None)) for n in ast.walk(e))
+
+
+def _absent_guard(ctx, f, view, s, field, key):
+    """Verdict modifier of a write of `key` into the container of `field`: True when a test `key not in <container>`
+    dominates it (the entry the transform placed is never replaced), None when some other dominating test reads the
+    container (not analysed), False when nothing conditions the write on the container."""
+    out = False
+    for _t, pol, test in dominating_conditions(ctx, f, s):
+        if not any(isinstance(n, (ast.Name, ast.Attribute, ast.Subscript)) and view.field_of(n, s) == field for n in ast.walk(test)):
+            continue
+        if (isinstance(test, ast.Compare) and len(test.ops) == 1 and key is not None and src(test.left) == src(key) and view.field_of(test.comparators[0], s) == field
+                and ((isinstance(test.ops[0], ast.NotIn) and pol) or (isinstance(test.ops[0], ast.In) and not pol))):
+            return True
+        out = None
+    return out
+
+
+def _request_writes(ctx, f, view, fields, region, depth=0):
+    """[(verdict, text)] of the located places of f (statements accepted by `region`) that change what the container of a
+    request field holds: verdict False = an entry is replaced by / removed in favour of a value that does not come from the
+    request, None = located but conditioned / not followed, True = cannot replace an entry (setdefault, absent-guarded)."""
+    out = []
+    fv = FuncView.of(f.node)
+    cfg = ctx.cfg(f)
+    where = f.qualname if depth else None
+
+    def say(v, msg, s):
+        out.append((v, (f"{where}: " if where else "") + msg + f" in `{src(s)[:70]}`"))
+
+    def write(s, cont, field, key, value, how):
+        if value is not None and view.derived(value, s) and (key is None or not isinstance(_c(key), (str, bytes))):
+            return  # entries moved around inside the request (re-keying, decoding): not a foreign value
+        if value is not None and view.derived(value, s):
+            say(None, f"the `{field}` entry {src(key)} of the transformed request is re-written from the request itself", s)
+            return
+        g = _absent_guard(ctx, f, view, s, field, key)
+        if g is True:
+            say(True, f"`{field}` entry {src(key) if key is not None else ''} only added when the transform placed none", s)
+        elif g is None:
+            say(None, f"{how} of the `{field}` of the transformed request under a test on that container", s)
+        else:
+            what = f"entry {src(key)}" if key is not None else "entries"
+            say(False, f"{how}: {what} of the `{field}` of the transformed request replaced by a value that does not come from the transform - a profile may place "
+                       f"the metadata / id / output exactly there (`header \"<name>\"` / `parameter \"<name>\"` termination statements are free profile strings), and that placement "
+                       f"is performed by the transform, so it is overwritten", s)
+
+    def delete(s, field, key, used):
+        if used:
+            say(None, f"an entry of the `{field}` of the transformed request is taken out and its value used", s)
+        else:
+            say(False, f"entry {src(key) if key is not None else '(any)'} of the `{field}` of the transformed request is removed after the transform: a placement of the "
+                       f"metadata / id / output there never reaches the wire", s)
+
+    for s in statements(f.node):
+        if not cfg.has(s) or not region(s):
+            continue
+        # 1. stores / deletions through a subscript, augmented assignment of the container
+        tg = []
+        if isinstance(s, ast.Assign):
+            tg = [(t, s.value) for t in s.targets]
+        elif isinstance(s, ast.AnnAssign) and s.value is not None:
+            tg = [(s.target, s.value)]
+        elif isinstance(s, ast.AugAssign):
+            tg = [(s.target, s.value)]
+        for t, v in tg:
+            pairs = list(zip(t.elts, v.elts)) if isinstance(t, (ast.Tuple, ast.List)) and isinstance(v, (ast.Tuple, ast.List)) and len(t.elts) == len(v.elts) else \
+                [(x, None) for x in t.elts] if isinstance(t, (ast.Tuple, ast.List)) else [(t, v)]
+            for t1, v1 in pairs:
+                if isinstance(t1, ast.Subscript):
+                    fl = view.field_of(t1.value, s)
+                    if fl is not None:
+                        write(s, t1.value, fl, t1.slice, v1 if not isinstance(s, ast.AugAssign) else None, "store")
+                elif isinstance(s, ast.AugAssign) and isinstance(s.op, ast.BitOr):
+                    fl = view.field_of(t1, s)
+                    if fl is not None:
+                        write(s, t1, fl, None, v1, "in-place merge (`|=`: the right operand wins)")
+        if isinstance(s, ast.Delete):
+            for t in s.targets:
+                if isinstance(t, ast.Subscript):
+                    fl = view.field_of(t.value, s)
+                    if fl is not None:
+                        delete(s, fl, t.slice, False)
+        for h in _heads(s):
+            for n in ast.walk(h):
+                # 2. in-place mapping methods
+                if isinstance(n, ast.Call) and isinstance(n.func, ast.Attribute) and n.func.attr in _MAP_WRITES:
+                    fl = view.field_of(n.func.value, s)
+                    if fl is not None:
+                        kind = _MAP_WRITES[n.func.attr]
+                        if kind == "keep":
+                            say(True, f"`{fl}`.setdefault(..) keeps the entry the transform placed", s)
+                        elif kind == "delete":
+                            delete(s, fl, n.args[0] if n.args else None, not (isinstance(s, ast.Expr) and s.value is n))
+                        elif n.func.attr == "__setitem__" and len(n.args) == 2:
+                            write(s, n.func.value, fl, n.args[0], n.args[1], "store")
+                        else:
+                            args = list(n.args) + [k.value for k in n.keywords]
+                            write(s, n.func.value, fl, None, ast.Tuple(elts=args, ctx=ast.Load()) if args and all(view.derived(a, s) for a in args) else None, f"{n.func.attr}(..)")
+                # 3. a new mapping in which later entries replace those of the request field
+                over = None
+                if isinstance(n, ast.Dict):
+                    for i, (k, v) in enumerate(zip(n.keys, n.values)):
+                        if k is None and view.field_of(v, s) is not None and i + 1 < len(n.keys):
+                            later = [(k2, v2) for k2, v2 in list(zip(n.keys, n.values))[i + 1:] if not view.derived(v2, s)]
+                            if later:
+                                over = (view.field_of(v, s), later[0][0], "dict display (entries after `**<container>` win)")
+                elif isinstance(n, ast.BinOp) and isinstance(n.op, ast.BitOr) and view.field_of(n.left, s) is not None and not view.derived(n.right, s):
+                    over = (view.field_of(n.left, s), None, "`<container> | <other>` (the right operand wins)")
+                elif isinstance(n, ast.Call) and dotted(n.func) in ("dict", "OrderedDict", "collections.OrderedDict") and len(n.args) == 1 and n.keywords \
+                        and view.field_of(n.args[0], s) is not None and not all(view.derived(k.value, s) for k in n.keywords):
+                    over = (view.field_of(n.args[0], s), None, "dict(<container>, ..) (the keywords win)")
+                if over is not None:
+                    write(s, None, over[0], over[1], None, over[2])
+                # 4. the request / a field container handed to a package function: look one level into it
+                if isinstance(n, ast.Call) and depth < 2:
+                    cal = _callee(ctx, f, n)
+                    g = cal.func if cal is not None and cal.kind == "func" else None
+                    if g is None or g.fq == f.fq:
+                        continue
+                    b = _bind(ctx, f, n)
+                    rp = [p for p, a in b.items() if p != "**" and a is not None and view.is_req(a, s)]
+                    fp = {p: view.field_of(a, s) for p, a in b.items() if p != "**" and a is not None and not isinstance(a, ast.Call) and view.field_of(a, s) is not None}
+                    if rp or fp:
+                        sub = _ReqView(ctx, g, fields, req_params=rp, field_params=fp)
+                        out.extend(_request_writes(ctx, g, sub, fields, lambda _s: True, depth + 1))
+    return out
+
+
+def r13(ctx):
+    """What is sent is what the transform produced: between `self.c2http.<route>.transform(..)` and the call that sends
+    the request, no entry of a container field of the transformed request (headers, params - also through an alias, a
+    copy that is sent instead, or a helper the request is handed to) is replaced by, or removed in favour of, a value
+    that does not come from the transform.  The transform performs the profile's dynamic placements (`header "<name>"`,
+    `parameter "<name>"` with free names), so whatever is written afterwards under a fixed name overwrites the metadata /
+    id / output of the profile that places it under that name; client-side defaults belong into the *initial* request
+    handed to the transform."""
+    fields = _request_fields(ctx)
+    for fq, route, what in (("client.HttpBeaconClient.get_task", "transform_get", "check-in"), ("client.HttpBeaconClient.send_callback", "transform_submit", "callback")):
+        f = ctx.repo.func(fq)
+        text = f"{what}: the transformed request is sent as the transform left it"
+        if not fields:
+            ctx.undecided("R13", "ALIAS", f, text, "the fields of c2.HttpRequest are not declared in a form this rule can read")
+            continue
+        calls, other = _transform_calls(ctx, f, _stores(f.node))
+        calls = [c for c, _ic, a in calls if a == route]
+        if len(calls) != 1:
+            ctx.undecided("R13", "ALIAS", f, text, "the transformed request is produced inside a helper this rule does not see into" if other and not calls else
+                          f"{len(calls)} requests are built with self.c2http.{route}.transform(..): which one is sent is not followed")
+            continue
+        tcall = calls[0]
+        cfg = ctx.cfg(f)
+        tst = FuncView.of(f.node).stmt_of(tcall)
+        if tst is None or not cfg.has(tst):
+            ctx.undecided("R13", "ALIAS", f, text, "the statement of the transform call is not on the CFG of the method")
+            continue
+        view = _ReqView(ctx, f, fields, tcall=tcall)
+        sites = _request_writes(ctx, f, view, fields, lambda s: s is tst or cfg.reaches(cfg.node(tst), cfg.node(s)))
+        bad = sorted({t for v, t in sites if v is False})
+        unk = sorted({t for v, t in sites if v is None})
+        if bad:
+            ctx.ob("R13", "ALIAS", f, text, False, "; ".join(bad[:2]), tcall)
+        elif unk:
+            ctx.undecided("R13", "ALIAS", f, text, "; ".join(unk[:2]), tcall)
+        else:
+            kept = sorted({t for v, t in sites if v is True})
+            ctx.ob("R13", "ALIAS", f, text, True, "no statement after the transform call stores into / removes from / overrides a container field of the transformed request"
+                   + (f" ({'; '.join(kept[:2])})" if kept else ""), tcall)
+
+
 # ---------------------------------------------------------------------------- R10: the message parser cuts at the first separator
-_CUTS = ("partition", "rpartition", "split", "rsplit")
+_CUTS =("partition", "rpartition", "split", "rsplit")
 _FINDS = {"find": "first", "index": "first", "rfind": "last", "rindex": "last"}
 
 
